@@ -5,6 +5,7 @@ package main
 import (
 	"encoding/json"
 	"fmt"
+	"sort"
 	"strconv"
 	"strings"
 
@@ -288,6 +289,50 @@ func opCompact(c *hx.Ctx, nss []b6.Namespace, a, b b6.FeatureID) {
 	c.Op("compact "+hx.List(words)+" "+idWord(a)+" "+idWord(b), ans)
 }
 
+type encIter struct {
+	ids *compact.FeatureIDs
+	i   int
+}
+
+func (e *encIter) Next() bool                   { e.i++; return e.i <= e.ids.Len() }
+func (e *encIter) FeatureID() compact.FeatureID { return e.ids.At(e.i - 1) }
+
+// opPosting: the IDs are sorted the way the compact index sorts them (sort.Sort on compact.FeatureIDs), written as
+// a real posting list (PostingList.Fill / Marshal) and read back with the real iterator: the order in which a
+// compact world's search hands out IDs.
+func opPosting(c *hx.Ctx, nss []b6.Namespace, ids []b6.FeatureID) {
+	nsw := make([]string, len(nss))
+	for i, ns := range nss {
+		nsw[i] = hx.Hex([]byte(ns))
+	}
+	idw := make([]string, len(ids))
+	for i, id := range ids {
+		idw[i] = idWord(id)
+	}
+	ans := hx.Recover(func() string {
+		var nt compact.NamespaceTable
+		in := make([]b6.Namespace, len(nss))
+		copy(in, nss)
+		nt.FillFromNamespaces(in)
+		var enc compact.FeatureIDs
+		for _, id := range ids {
+			enc.Append(nt.EncodeID(id))
+		}
+		sort.Sort(&enc)
+		var pl compact.PostingList
+		pl.Fill("t", &encIter{ids: &enc})
+		buf := make([]byte, compact.PostingListHeaderMaxLength+16*len(nt.FromEncoded)*8+len(pl.IDs)+64)
+		n := pl.Marshal(buf)
+		it := compact.NewIterator(buf[0:n], &nt)
+		out := []string{}
+		for it.Next() {
+			out = append(out, idWord(it.FeatureID()))
+		}
+		return hx.List(out)
+	})
+	c.Op("posting "+hx.List(nsw)+" "+hx.List(idw), ans)
+}
+
 func opPostcode(c *hx.Ctx, s string) {
 	ans := hx.Recover(func() string {
 		id := b6.PointIDFromGBPostcode(s)
@@ -501,7 +546,7 @@ func corpus(c *hx.Ctx) {
 func main() {
 	hx.Main(hx.Family{
 		Name: "c31",
-		Rule: "per case ~12 observations on IDs drawn from: 7 types x (19 known namespaces | 44 odd ones incl. a/b/c, trailing '/', YAML/JSON-hostile | random ASCII | random bytes | empty) x (edge/random 64-bit values | postcode- and ONS-encoded values); string/JSON/YAML/proto round trips, mutated ID strings, alias tokens (valid, near-miss), Less on related triples, compact order on random namespace tables, postcode and ONS codecs; non-trivial = the case contains an ID with a '/'-bearing or alias namespace AND a value >= 2^32",
+		Rule: "per case ~12 observations on IDs drawn from: 7 types x (19 known namespaces | 44 odd ones incl. a/b/c, trailing '/', YAML/JSON-hostile | random ASCII | random bytes | empty) x (edge/random 64-bit values | postcode- and ONS-encoded values); string/JSON/YAML/proto round trips, mutated ID strings, alias tokens (valid, near-miss), Less on related triples, compact order on random namespace tables (FeatureIDs.Less, and the iteration order of a real posting list built from 2-12 distinct IDs), postcode and ONS codecs; non-trivial = the case contains an ID with a '/'-bearing or alias namespace AND a value >= 2^32",
 		Quick:    2500,
 		Thorough: 150000,
 		Corpus:   corpus,
@@ -573,6 +618,28 @@ func main() {
 				ca.Namespace = ""
 			}
 			opCompact(c, nss, ca, cb)
+			// the same order through a real posting list: distinct IDs over the table's namespaces
+			pts := []b6.FeatureID{}
+			seen := map[b6.FeatureID]bool{}
+			for i := 0; i < 2+r.Intn(10); i++ {
+				id := b6.FeatureID{Type: types[r.Intn(4)], Namespace: nss[r.Intn(len(nss))], Value: r.Uint64Edge()}
+				if r.Chance(1, 3) && len(pts) > 0 {
+					id = pts[r.Intn(len(pts))]
+					switch r.Intn(3) {
+					case 0:
+						id.Value++
+					case 1:
+						id.Type = types[r.Intn(4)]
+					default:
+						id.Namespace = nss[r.Intn(len(nss))]
+					}
+				}
+				if !seen[id] {
+					seen[id] = true
+					pts = append(pts, id)
+				}
+			}
+			opPosting(c, nss, pts)
 			// codecs
 			p := genPostcode(r)
 			switch r.Intn(6) {
